@@ -175,13 +175,14 @@ class C07(Check):
             for p in pts:
                 head = s["elev"] + p
                 pp = head - s["elev"]  # the pressure the code sees
-                dval = rng.choice([0.0, s["D"] * rng.random(), rng.uniform(-1, 1)])
                 m.head[nm].value = head
-                m.demand[nm].value = dval
-                r = m.pdd[nm].evaluate()
-                rec["pts"].append((pp, head, dval, r))
-                lines.append("pddrow %s %s" % (vlib.frac_str(e), " ".join(fbits(x) for x in [head, dval, par["D"], par["pmin"], par["pnom"], par["elev"]] + co)))
-                lines.append("pddcurve %s %s %s %s" % (fbits(pmin), fbits(pnom), fbits(e), fbits(pp)))
+                # demand 0: residual = -D*fraction without cancellation (oracle); random demand: row correspondence only
+                for dval in (0.0, rng.choice([s["D"] * rng.random(), rng.uniform(-1, 1)])):
+                    m.demand[nm].value = dval
+                    r = m.pdd[nm].evaluate()
+                    rec["pts"].append((pp, head, dval, r))
+                    lines.append("pddrow %s %s" % (vlib.frac_str(e), " ".join(fbits(x) for x in [head, dval, par["D"], par["pmin"], par["pnom"], par["elev"]] + co)))
+                    lines.append("pddcurve %s %s %s %s" % (fbits(pmin), fbits(pnom), fbits(e), fbits(pp)))
             recs.append(rec)
         return recs, lines
 
@@ -207,7 +208,9 @@ class C07(Check):
             scale = abs(dval) + abs(D) * (1.0 + abs(pp) ** 3 * (abs(rec["co"][0]) + abs(rec["co"][4])) + abs(rec["co"][3]) + abs(rec["co"][7]))
             if not (r == lr or abs(r - lr) <= 1e-12 * scale or (math.isnan(r) and math.isnan(lr))):
                 bad_corr = bad_corr or ("row", pp, r, lr)
-            f_impl = (dval - r) / D if D != 0 else None
+            if dval != 0.0:
+                continue
+            f_impl = (-r) / D if D != 0 else None
             fr.append((pp, f_impl, cur[0], dval, r))
             regime = ("below" if pp <= pmin else "band1" if pp <= pmin + delta else "mid" if pp <= pnom - delta else "band2" if pp <= pnom else "above")
             ctx.case((pat, regime, "e=.5" if e == 0.5 else "e=1" if e == 1.0 else "e*", cls, D == 0), nontrivial=(D != 0 or regime.startswith("band")))
@@ -309,7 +312,7 @@ class C07(Check):
                 continue
             self._judge(ctx, rec, it, failures, broken)
             if len(ctx.samples) < 4 and rec["D"] != 0:
-                mid = [x for x in rec["pts"] if rec["pmin"] < x[0] < rec["pnom"]][:2]
+                mid = [x for x in rec["pts"] if rec["pmin"] < x[0] < rec["pnom"] and x[2] == 0.0][:2]
                 ctx.sample({"Pmin": rec["pmin"], "Preq": rec["pnom"], "e": rec["e"], "D": rec["D"], "own": rec["own"],
                             "pressure,delivered": [(x[0], x[2] - x[3]) for x in mid]})
         return failures, broken
